@@ -30,7 +30,7 @@ C06a == Inv_C06a(g, K)
 C06b == Inv_C06b(g)
 
 \* structural invariants of the ledger (extra)
-TypeOK == /\ \A h \in Cfg.hashes : s.inv[h].amt > 0 => s.pay[h].has
+TypeOK == /\ \A h \in Cfg.hashes : s.inv[h].amt >= 0 => s.pay[h].has
           /\ \A h \in Cfg.hashes : ~s.pay[h].has => (Tot(s.pay[h].in) = 0 /\ Tot(s.pay[h].out) = 0 /\ ~s.pay[h].pre)
           /\ \A h \in Cfg.hashes : s.ppre[h] \in BOOLEAN
 
